@@ -688,7 +688,9 @@ class CeiloChunk(AbstractChunk):
 
         # Add a column to the original data to keep track of the slice id.
         # First, set them all to -1 and force the correct dtype. I hate pandas for this ...
-        self.data.loc[:, 'slice_id'] = -1
+        # Note: a plain column assignment also copes with a chunk left without any hit (this happens when
+        # all the hits are of type 2+ and get cropped above MSA + MSA_HIT_BUFFER).
+        self.data['slice_id'] = -1
         self.data['slice_id'] = self.data.loc[:, 'slice_id'].astype(int)
 
         # If I have only 1 valid point ...
@@ -805,7 +807,7 @@ class CeiloChunk(AbstractChunk):
         self._slices['isolated'] = None
 
         # Prepare to add the group id to the data frame
-        self.data.loc[:, 'group_id'] = None
+        self.data['group_id'] = None
 
         # Prepare a list of slices that are overlapping with one another.
         slice_bundles = []
@@ -928,7 +930,7 @@ class CeiloChunk(AbstractChunk):
                                  'finding groups first !')
 
         # Get ready to add the layering info to the data
-        self.data.loc[:, 'layer_id'] = None
+        self.data['layer_id'] = None
 
         # Loop through every group, and look for sub-layers in it ...
         for ind in range(len(self.groups)):
